@@ -649,6 +649,26 @@ theorem docWeightQ_eq (d : Doc) (out : Out) (t : Totals) (hcalc : calculate exac
   rw [hcalc]
   simp only [ht]
 
+/-- every tight weight is at most the weight of the amount due -/
+theorem weightsQ_le (d : Doc) (G Gk : ℕ) :
+    (sumW d.lines : ℚ) ≤ dueWQ d G Gk ∧ adjWQ (sumW d.lines) d.discounts ≤ dueWQ d G Gk ∧
+    adjWQ (sumW d.lines) d.charges ≤ dueWQ d G Gk ∧ incWQ d Gk ≤ dueWQ d G Gk ∧
+    totalWQ d Gk ≤ dueWQ d G Gk ∧ taxWQ d G ≤ dueWQ d G Gk ∧ twtWQ d G Gk ≤ dueWQ d G Gk ∧
+    advWQ d G Gk ≤ dueWQ d G Gk ∧ 0 ≤ dueWQ d G Gk := by
+  have a1 := adjWQ_nonneg (sumW d.lines) d.discounts
+  have a2 := adjWQ_nonneg (sumW d.lines) d.charges
+  have a3 := rowsWLQ_nonneg comboWQ comboWQ_nonneg d.includes d
+  have a4 := rowsWLQ_nonneg (kNQ d.includes) (kNQ_nonneg d.includes) d.includes d
+  have a5 : (0 : ℚ) ≤ (sumW d.lines : ℚ) := by positivity
+  have a6 : (0 : ℚ) ≤ (G : ℚ) := by positivity
+  have a7 : (0 : ℚ) ≤ (Gk : ℚ) := by positivity
+  have hW0 : 0 ≤ twtWQ d G Gk := by
+    unfold twtWQ totalWQ total2WQ incWQ taxWQ; linarith
+  have a8 : 0 ≤ advWQ d G Gk := sum_nonneg' _ _ (fun a _ => advRowWQ_nonneg _ hW0 a)
+  unfold dueWQ
+  unfold twtWQ totalWQ total2WQ incWQ taxWQ at hW0 ⊢
+  refine ⟨?_, ?_, ?_, ?_, ?_, ?_, ?_, ?_, ?_⟩ <;> linarith
+
 end Err
 end Calc
 end GoblVerif
